@@ -52,3 +52,48 @@ Fixpoint btimes_ok (prev : N) (h : list biter) : bool :=
   | [] => true
   | i :: t => (prev <=? bi_now i) && btimes_ok (bi_now i) t
   end.
+
+(* ---- the deliveries a history's cache content is accounted to ---------------------------- *)
+(* a delivery: time, interface, record.  Under PNeed a delivery is logged when an active search
+   needs the record at the moment it arrives (`needed`, evaluated on the cache as it is then);
+   under PCode every delivery is logged. *)
+Definition deliv : Type := (N * N * brec)%type.
+Definition acc_t : Type := (bcache * list N * list (N * name) * N)%type.
+Definition acc_cache (a : acc_t) : bcache := fst (fst (fst a)).
+Definition logged (pol : policy) (now : N) (q : list name) (res : list (name * option N)) (c : bcache) (r : brec) : bool :=
+  match pol with PCode => true | PNeed => needed now q res c r end.
+
+Fixpoint msg_log (pol : policy) (now : N) (fu : bool) (ifx : N) (q : list name) (res : list (name * option N))
+         (rs : list brec) (acc : acc_t) : list deliv :=
+  match rs with
+  | [] => []
+  | r :: t => (if logged pol now q res (acc_cache acc) r then [(now, ifx, r)] else [])
+              ++ msg_log pol now fu ifx q res t (absorb pol now fu ifx q res acc r)
+  end.
+Fixpoint msgs_log (pol : policy) (now : N) (ms : list bmsg) (s : bst) : list deliv :=
+  match ms with
+  | [] => []
+  | m :: t => msg_log pol now (is_for_us s m) (bm_if m) (b_queriers s) (b_resolvers s) (bm_recs m)
+                      (b_cache s, [], [], b_excess s)
+              ++ msgs_log pol now t (handle_response pol now s m)
+  end.
+Fixpoint hist_log (pol : policy) (s : bst) (h : list biter) : list deliv :=
+  match h with
+  | [] => []
+  | i :: t => msgs_log pol (bi_now i) (bi_msgs i) s ++ hist_log pol (fst (step pol s i)) t
+  end.
+(* the needed (PNeed) / all (PCode) deliveries of a history that starts at t0 *)
+Definition deliveries_of (pol : policy) (t0 : N) (h : list biter) : list deliv := hist_log pol (b_init t0) h.
+
+Definition kind_eqb (a b : kind) : bool :=
+  match a, b with
+  | KPtr, KPtr | KSrv, KSrv | KTxt, KTxt | KAddr, KAddr | KNsec, KNsec | KNone, KNone => true
+  | _, _ => false
+  end.
+(* a delivery of kind k whose TTL (0 counted as 1 s) has not run out at time T *)
+Definition dlive (k : kind) (T : N) (d : deliv) : bool :=
+  kind_eqb (kind_of (br_ty (snd d))) k && (T <? fst (fst d) + wire_ttl (br_ttl (snd d)) * 1000).
+Definition live_count (k : kind) (T : N) (D : list deliv) : N := N.of_nat (length (filter (dlive k T) D)).
+
+Fixpoint blast_time (prev : N) (h : list biter) : N :=
+  match h with [] => prev | i :: t => blast_time (bi_now i) t end.
